@@ -120,11 +120,21 @@ package generator
 //@   modifies ghost.deletesOK
 //@   ensures ghost.deletesOK == old(ghost.deletesOK) + ite(result == nil, 1, 0)
 
+// sent_pool counts the sends on the pool channel (engine-maintained); cap(ch) is
+// the buffer size given to make.
+//@ ghost sent_pool int
 //@ func NewParameterPool
 //@   property C39
 //@   opt noframe 1
+//@   requires poolSize >= 0
+//@   modifies ghost.sent_pool, alloc
+//@   ensures [the-pool-buffer-is-exactly-the-configured-size] result != nil && cap(result.pool) == poolSize
+//@   ensures [at-most-the-configured-number-of-stored-parameters-is-loaded] ghost.sent_pool - old(ghost.sent_pool) <= poolSize
+//@   loop 1 invariant ghost.sent_pool == old(ghost.sent_pool) + rangeidx1 && rangeidx1 <= poolSize
 //@   lit 1
 //@     opt noframe 1
+//@     modifies ghost.sent_pool
+//@     ensures [one-generation-adds-at-most-one-parameter] ghost.sent_pool <= old(ghost.sent_pool) + 1
 
 //@ func ParameterPool.GetNow
 //@   property C39
